@@ -174,6 +174,29 @@ def lane_run(n, seed_ids, props_override=None, tier="quick"):
     return 0
 
 
+def benign_run(n, names):
+    """Behaviour-preserving changes: the check of the property must exit 0."""
+    d = lane_setup(n)
+    env = f"GOSX_REPO={d}/repo GOSX_HARNESS={d}/harness GOSX_OUT={d}"
+    bad = 0
+    for name in names:
+        bd = os.path.join("/verif/benign", name)
+        meta = json.load(open(os.path.join(bd, "meta.json")))
+        rc, out = sh(f"git apply {bd}/patch.diff && go build ./... && go build -tags verif ./...", d + "/repo")
+        if rc:
+            print(name, "does not apply/build:", out[-500:]); bad += 1; continue
+        try:
+            rc, out = sh(f"{env} timeout 1500 /verif/bin/gosx check {meta['property']} --tier quick --no-evidence 2>&1", "/verif", timeout=1600)
+        finally:
+            sh("git checkout -q -- . && git clean -fdq pkg cmd", d + "/repo")
+        print(f"{name} vs {meta['property']}: exit={rc} {'PASS' if rc == 0 else 'ALARM'}", flush=True)
+        if rc != 0:
+            bad += 1
+            for l in out.splitlines():
+                if l.startswith(("VIOLATION", "INCONCLUSIVE", "counterexample")): print("    ", l[:260])
+    return 1 if bad else 0
+
+
 def lane_remove(n):
     d = f"/tmp/lane{n}"
     sh(f"git worktree remove --force {d}/repo; git worktree prune", "/repo")
@@ -187,6 +210,8 @@ if __name__ == "__main__":
         if "--" in args:
             i = args.index("--"); props = args[i + 1:]; args = args[:i]
         sys.exit(lane_run(int(sys.argv[2]), args, props))
+    if sys.argv[1] == "benign":
+        sys.exit(benign_run(int(sys.argv[2]), sys.argv[3:]))
     if sys.argv[1] == "lane-remove":
         lane_remove(int(sys.argv[2])); sys.exit(0)
     if sys.argv[1] == "verify":
